@@ -52,7 +52,7 @@ proof! {
     }
 }
 
-//@ tier=thorough timeout=3600 bits=32 fns=warp_math::scalar::F32Scalar::sin_cos,warp_math::trig::sin_cos_f32,warp_math::trig::sin_qtr_interp
+//@ tier=off timeout=3600 bits=32 fns=warp_math::scalar::F32Scalar::sin_cos,warp_math::trig::sin_cos_f32,warp_math::trig::sin_qtr_interp
 //@ bounds="|x| < TAU; rem_euclid by contract (exact identity on this range); real interpolation and table"
 //@ desc="exact odd/even symmetry, range and canonical outputs with the real interpolation code"
 proof! {
